@@ -255,26 +255,48 @@ func (i *interpreter) symBinop(op token.Token, t types.Type, x, y value) value {
 	case token.AND_NOT:
 		return mkval(c.BAnd(a, c.BNot(b)), kx)
 	case token.EQL:
+		if sg {
+			if t, ok := i.linCompare(a, b, false); ok {
+				return mkval(t, types.Bool)
+			}
+		}
 		return mkval(c.Eq(a, b), types.Bool)
 	case token.NEQ:
+		if sg {
+			if t, ok := i.linCompare(a, b, false); ok {
+				return mkval(c.Not(t), types.Bool)
+			}
+		}
 		return mkval(c.Not(c.Eq(a, b)), types.Bool)
 	case token.LSS:
 		if sg {
+			if t, ok := i.linCompare(a, b, true); ok {
+				return mkval(t, types.Bool)
+			}
 			return mkval(c.Slt(a, b), types.Bool)
 		}
 		return mkval(c.Ult(a, b), types.Bool)
 	case token.LEQ:
 		if sg {
+			if t, ok := i.linCompare(b, a, true); ok {
+				return mkval(c.Not(t), types.Bool)
+			}
 			return mkval(c.Sle(a, b), types.Bool)
 		}
 		return mkval(c.Ule(a, b), types.Bool)
 	case token.GTR:
 		if sg {
+			if t, ok := i.linCompare(b, a, true); ok {
+				return mkval(t, types.Bool)
+			}
 			return mkval(c.Slt(b, a), types.Bool)
 		}
 		return mkval(c.Ult(b, a), types.Bool)
 	case token.GEQ:
 		if sg {
+			if t, ok := i.linCompare(a, b, true); ok {
+				return mkval(c.Not(t), types.Bool)
+			}
 			return mkval(c.Sle(b, a), types.Bool)
 		}
 		return mkval(c.Ule(b, a), types.Bool)
